@@ -63,11 +63,15 @@ func decFrac(n, d int64) sdkmath.LegacyDec {
 
 func DecOfPrice(p int64) sdkmath.LegacyDec { return sdkmath.LegacyNewDecWithPrec(p, 4) }
 
-// PriceOfDec returns the scaled price; panics when the price is not representable (harness limitation, exit 2).
+// OutOfDomain is raised by the projection when the real state leaves the small-number domain of the
+// specification (a price that is not a multiple of 1e-4, an amount beyond 2^30): the run ends there.
+type OutOfDomain string
+
+// PriceOfDec returns the scaled price.
 func PriceOfDec(d sdkmath.LegacyDec) int64 {
 	x := d.MulInt64(PS)
-	if !x.IsInteger() {
-		panic("price not representable at scale 1e4: " + d.String())
+	if !x.IsInteger() || x.GT(sdkmath.LegacyNewDec(200000)) {
+		panic(OutOfDomain("price not representable at scale 1e4: " + d.String()))
 	}
 	return x.TruncateInt64()
 }
@@ -160,7 +164,7 @@ type M = map[string]interface{}
 
 func i64(x sdkmath.Int) int64 {
 	if !x.IsInt64() || x.Int64() > 1<<30 || x.Int64() < -(1<<30) {
-		panic("amount outside the small-mode range: " + x.String())
+		panic(OutOfDomain("amount outside the small-mode range: " + x.String()))
 	}
 	return x.Int64()
 }
@@ -298,7 +302,9 @@ func (w *World) Project() M {
 	for kk := range w.Xs {
 		keys = append(keys, kk)
 	}
-	sort.Slice(keys, func(i, j int) bool { return keys[i][0] < keys[j][0] || (keys[i][0] == keys[j][0] && keys[i][1] < keys[j][1]) })
+	sort.Slice(keys, func(i, j int) bool {
+		return keys[i][0] < keys[j][0] || (keys[i][0] == keys[j][0] && keys[i][1] < keys[j][1])
+	})
 	for _, kk := range keys {
 		v := w.Xs[kk]
 		xs = append(xs, M{"app": kk[0], "pair": kk[1], "xb": v[0], "xq": v[1]})
